@@ -352,7 +352,8 @@ class Typer:
             return base.value()
         if isinstance(node, (ast.List, ast.ListComp, ast.Set, ast.SetComp, ast.GeneratorExp)):
             if isinstance(node, (ast.List, ast.Set)):
-                return Ty("seq", "list", (union([self.expr(fn, e, env, _depth + 1) for e in node.elts]) if node.elts else ANY,))
+                # `{*xs, y}`: the elements of xs and y
+                return Ty("seq", "list", (union([self._iter_elem(fn, e.value, env) if isinstance(e, ast.Starred) else self.expr(fn, e, env, _depth + 1) for e in node.elts]) if node.elts else ANY,))
             inner = dict(env)
             for g in node.generators:
                 self._bind(g.target, self._iter_elem(fn, g.iter, inner), inner)
